@@ -49,6 +49,13 @@ def call(ex, st, base, attr, recv, args, kwargs, node):
             eng.assumptions_used.add("datetime.date objects: 1 <= toordinal() <= 3652059 (0001-01-01 .. 9999-12-31, library invariant)")
             yield st1, v
         return
+    if ty in ("py", "obj") and attr == "replace" and not args and set(kwargs) == {"tzinfo"} and isinstance(kwargs["tzinfo"], Const) \
+            and kwargs["tzinfo"].val == "datetime.timezone.utc":
+        # datetime.replace(tzinfo=timezone.utc): assumed contract of the library
+        from . import externals
+        t = base.t if ty == "py" else box(base)
+        yield from externals.call(ex, st, "datetime.replace_tzinfo_utc", [V("py", t)], {}, node)
+        return
     if ty in ("py", "obj") and attr == "as_tuple" and not args:
         # decimal.Decimal.as_tuple() -> (sign, digits, exponent) through the observer spec functions
         t = base.t if ty == "py" else box(base)
